@@ -447,3 +447,57 @@ func c04MatchedStaysMatched(c *Ctx, r *Result) {
 	}
 	r.Floor("R04i", n, 1)
 }
+
+// ---- R02h: user callbacks are not called under an engine lock --------------------------------------
+
+// A finish handler, an observer or any other function value kept in a field is code of the host. It
+// may call back into the object that calls it (AllErrors, HighestPriority, NewChildMonitor from a
+// finish handler). The engine's mutexes are not re-entrant: calling such a function while one of
+// them is held deadlocks the worker that delivers the notification — the wait of the next cascades
+// never returns. Rule (package engine): no dynamic call of a function value loaded from a struct
+// field is made where a lock of the module may be held.
+func c02CallbacksOutsideLocks(c *Ctx, r *Result, lfs *LockFlows) {
+	n := 0
+	for _, fn := range c.ModFuncs() {
+		if c.PkgOf(fn) != "engine" && c.PkgOf(fn) != "engine/pubsub" {
+			continue
+		}
+		key := c.FuncKey(fn)
+		ord := newOrdinals()
+		lf := lfs.Of(fn)
+		allInstrs(fn, func(in ssa.Instruction) {
+			call, ok := in.(*ssa.Call)
+			if !ok || call.Call.IsInvoke() || call.Call.StaticCallee() != nil {
+				return
+			}
+			ld, ok := unspill(call.Call.Value).(*ssa.UnOp)
+			if !ok || ld.Op != token.MUL {
+				return
+			}
+			if _, isField := ld.X.(*ssa.FieldAddr); !isField {
+				return
+			}
+			if _, isSig := call.Call.Value.Type().Underlying().(*types.Signature); !isSig {
+				return
+			}
+			n++
+			site := ord.key(key, "callback", accessPath(call.Call.Value))
+			pos := c.Pos(c.InstrPos(in))
+			var held []string
+			if lf != nil {
+				held = lf.MayHoldClasses(in)
+			}
+			if len(held) == 0 && fn.Parent() != nil {
+				// a function literal: the locks its own body takes are in lf; nothing else known
+			}
+			if len(held) == 0 {
+				r.Instance("R02h", site, pos, "ok", "the stored function is called with no lock of the module held", true)
+				return
+			}
+			r.Instance("R02h", site, pos, "finding", "a stored function is called under "+fmt.Sprint(held), true)
+			r.Report(Finding{Rule: "R02h", Site: site, Pos: pos,
+				Msg: fmt.Sprintf("%s: the function value %s (code of the host) is called while %v may be held: a handler that calls back into the same object (AllErrors, HighestPriority, NewChildMonitor from a finish handler) blocks on the non-re-entrant lock — the worker never returns and later waits never end", key, accessPath(call.Call.Value), held)})
+		})
+	}
+	r.Floor("R02h", n, 1)
+}
